@@ -145,12 +145,38 @@ theorem repeatsChild_false_iff {t : RawTree} :
   simp only [repeatsChild, List.any_eq_false, List.any_eq_true, Prod.forall, Prod.exists,
     not_exists, not_and, Bool.not_eq_true, hasDup_false_iff_nodup]
 
+theorem childListErr_none_iff (cs : List Node) : childListErr cs = none ↔ cs ≠ [] ∧ cs.Nodup := by
+  unfold childListErr
+  cases cs with
+  | nil => simp
+  | cons c cs =>
+    simp only [List.isEmpty_cons, Bool.false_eq_true, if_false, ne_eq, reduceCtorEq,
+      not_false_eq_true, true_and]
+    cases h : hasDup (c :: cs) with
+    | true => simp [(hasDup_false_iff_nodup _).symm, h]
+    | false => simp [(hasDup_false_iff_nodup _).1 h]
+
+theorem firstChildListErr_none_iff {t : RawTree} :
+    t.firstChildListErr = none ↔
+      ∀ pl cl, (pl, cl) ∈ levelPairs t.hierarchy → ∀ p cs, (p, cs) ∈ t.level pl →
+        cs ≠ [] ∧ cs.Nodup := by
+  unfold firstChildListErr
+  rw [List.findSome?_eq_none_iff]
+  simp only [List.mem_flatMap, List.mem_map, Prod.exists, forall_exists_index, and_imp,
+    childListErr_none_iff]
+  constructor
+  · intro h pl cl hm p cs hp
+    exact h cs pl cl hm p cs hp rfl
+  · intro h cs pl cl hm p cs' hp he
+    subst he
+    exact h pl cl hm p cs' hp
+
 /-- what `validateWith true` tests, one conjunct per `if` -/
 theorem validate_ok_iff_checks {t : RawTree} :
     t.validate = .ok () ↔
       t.hasHierarchy = true ∧ t.keysMatch = true ∧ t.nodesAreStr = true ∧
       (∃ acc, checkLevelPairs t (levelPairs t.hierarchy) [] = .ok acc) ∧
-      t.repeatsChild = false ∧ t.hierarchy ≠ [] ∧ hasDup t.allRows = false := by
+      t.firstChildListErr = none ∧ t.hierarchy ≠ [] ∧ hasDup t.allRows = false := by
   have hl : t.leafLevel = none ↔ t.hierarchy = [] := by simp [leafLevel]
   unfold validate validateWith
   cases hll : t.leafLevel with
@@ -158,12 +184,12 @@ theorem validate_ok_iff_checks {t : RawTree} :
     have := hl.1 hll
     cases t.hasHierarchy <;> cases t.keysMatch <;> cases t.nodesAreStr <;>
       cases checkLevelPairs t (levelPairs t.hierarchy) [] <;>
-      cases t.repeatsChild <;> simp [this]
+      cases t.firstChildListErr <;> simp [this]
   | some l =>
     have : t.hierarchy ≠ [] := fun h => by rw [hl.2 h] at hll; cases hll
     cases t.hasHierarchy <;> cases t.keysMatch <;> cases t.nodesAreStr <;>
       cases checkLevelPairs t (levelPairs t.hierarchy) [] <;>
-      cases t.repeatsChild <;> cases hasDup t.allRows <;> simp [this]
+      cases t.firstChildListErr <;> cases hasDup t.allRows <;> simp [this]
 
 /-- soundness: everything the validator accepts is a strict tree -/
 theorem strict_of_validate {t : RawTree} (h : t.validate = .ok ()) : Strict t := by
@@ -178,7 +204,8 @@ theorem strict_of_validate {t : RawTree} (h : t.validate = .ok ()) : Strict t :=
       childExists := fun pl cl hm => (hp pl cl hm).1
       hasParent := fun pl cl hm => (hp pl cl hm).2.1
       oneParent := fun pl cl hm => (hp pl cl hm).2.2
-      childNodup := repeatsChild_false_iff.1 hr
+      childNe := fun pl cl hm p cs hp => (firstChildListErr_none_iff.1 hr pl cl hm p cs hp).1
+      childNodup := fun pl cl hm p cs hp => (firstChildListErr_none_iff.1 hr pl cl hm p cs hp).2
       rowsNodup := (hasDup_false_iff_nodup _).1 hd }
 
 /-- an accepted tree has at least one level (`hierarchy[-1]` is evaluated) -/
@@ -362,7 +389,9 @@ theorem validate_of_strict {t : RawTree} (hn : t.hierarchy.Nodup) (hne : t.hiera
     (h : Strict t) : t.validate = .ok () := by
   apply validate_ok_iff_checks.2
   refine ⟨h.hasH, keysMatch_iff.2 ⟨h.keysSub, h.hierSub⟩, h.str, ?_,
-    repeatsChild_false_iff.2 h.childNodup, hne, (hasDup_false_iff_nodup _).2 h.rowsNodup⟩
+    firstChildListErr_none_iff.2 (fun pl cl hm p cs hp =>
+      ⟨h.childNe pl cl hm p cs hp, h.childNodup pl cl hm p cs hp⟩),
+    hne, (hasDup_false_iff_nodup _).2 h.rowsNodup⟩
   exact checkLevelPairs_complete _ [] (levelPairs_snd_nodup hn)
     (fun pl cl hm => ⟨h.childExists pl cl hm, h.hasParent pl cl hm, h.oneParent pl cl hm⟩)
     (by intro k v hlk; simp [List.lookup] at hlk)
@@ -394,6 +423,11 @@ theorem rejects_repeated_child {t : RawTree} {pl cl : Level} {p : Node} {cs : Li
     (hm : (pl, cl) ∈ levelPairs t.hierarchy) (hp : (p, cs) ∈ t.level pl) (hd : ¬ cs.Nodup) :
     ∃ e, t.validate = .error e :=
   validate_error_of_not_strict fun s => hd (s.childNodup pl cl hm p cs hp)
+
+theorem rejects_childless_parent {t : RawTree} {pl cl : Level} {p : Node}
+    (hm : (pl, cl) ∈ levelPairs t.hierarchy) (hp : (p, []) ∈ t.level pl) :
+    ∃ e, t.validate = .error e :=
+  validate_error_of_not_strict fun s => s.childNe pl cl hm p [] hp rfl
 
 theorem rejects_dup_rows {t : RawTree} (hd : ¬ t.allRows.Nodup) : ∃ e, t.validate = .error e :=
   validate_error_of_not_strict fun s => hd s.rowsNodup
